@@ -224,7 +224,7 @@ CLAIMED['C04'] = (
     'asymmetrically correlated cut leaves x bases x parameter settings x admissible cut families (canonical, sub-families filtered '
     'during enumeration as cut_limit does, shuffled orders) — truth table, interface, non-trivial gate count, enable_validation.',
     NOTE_COMMON + 'PARTIAL: don\'t-care extraction, trivial-output shortcut, splice and driver loop are not proved (set-iteration-order dependent '
-    'code, not modelled as a whole). mockturtle and pysat are shims. One open known finding (dead logic).',
+    'code, not modelled as a whole). mockturtle and pysat are shims. No open finding (the dead-logic and leaf-reads-cone bookkeeping defects are repaired in /repo).',
     'Lean 4 proof (bit-level lemmas for the pattern simulation, C06 soundness) + correspondence of the pattern primitives + search oracle on the real algorithm')
 # ---- refreshed claim texts (as built) ----
 def _upd(pid, desc, notes):
@@ -442,7 +442,7 @@ _upd('C04',
      'families incl. shuffled / sub-families, correlated cut leaves, n-ary cones) and compared with its argument on all assignments; every '
      'splice it performs is recorded in-process, checked against the theorem\'s hypotheses and compared with the Lean model of replace_subcircuit.',
      'PARTIAL: cut selection, don\'t-care extraction, the in-place merge of cone outputs with equal patterns and the size accounting are not '
-     'modelled (search oracle only). mockturtle and pysat are shims. One open known finding (dead logic).')
+     'modelled (search oracle only). mockturtle and pysat are shims. No open finding (the dead-logic and leaf-reads-cone bookkeeping defects are repaired in /repo).')
 _upd('C13',
      'Theorems on the model (build_miter composed exactly as the code does: add_circuit + connect_circuit + generate_pairwise_xor + '
      'connect_circuit + final gate): for well-formed operands, whenever it returns, the result has the left operand\'s inputs in order and one '
